@@ -176,7 +176,7 @@ static bool guarded(char const* what, F&& f)
                 last = p;
                 t0 = clk::now();
             }
-            if (clk::now() - t0 > std::chrono::seconds(8))
+            if (clk::now() - t0 > std::chrono::seconds(12))
             {
                 ev("quiescent").s("in", what).done();
                 vlog::flush();
